@@ -40,6 +40,10 @@ def S(t, al=None, depth=0):
     if k == "this":
         return "this"
     if k == "mem":
+        b = t["b"]
+        if isinstance(b, dict) and b.get("k") == "mem" and b.get("n") == "":
+            # member of an anonymous union/struct: the anonymous level is transparent
+            return S(b["b"], al, d) + ("->" if b.get("arrow") else ".") + t["n"]
         return S(t["b"], al, d) + ("->" if t.get("arrow") else ".") + t["n"]
     if k == "call":
         name = t.get("name", t.get("fn", "?"))
@@ -404,6 +408,14 @@ class Fn:
                 if e["k"] == "decl" and e.get("n") in track and isinstance(e.get("init"), dict) and \
                         e["init"].get("k") in ("bool", "int", "null"):
                     kd[e["n"]] = bool(e["init"].get("v", 0))
+                if e["k"] == "decl" and e.get("n") in track and isinstance(e.get("init"), dict) and \
+                        e["init"].get("k") == "cond":
+                    ct, cpol = lit(e["init"]["c"])
+                    cs = S(ct, al)
+                    if cs in kd:
+                        arm = e["init"]["a"] if kd[cs] == cpol else e["init"]["b"]
+                        if isinstance(arm, dict) and arm.get("k") in ("bool", "int", "null"):
+                            kd[e["n"]] = bool(arm.get("v", 0))
                 if e["k"] == "assign":
                     lp = S(e.get("lhs"), al)
                     if lp in kd:
